@@ -1,5 +1,90 @@
-"""R9 — compile-fail witnesses (thorough tier). Placeholder until /verif/witness is built."""
+"""R9 — compile-fail witnesses (thorough tier).
+
+/verif/witness is a library crate that uses `constriction` as an external user would (path dependency on
+/repo, Cargo.lock copied from /repo).  Every witness is a rustdoc `compile_fail,E....` test (error code
+honoured on nightly) paired with a compiling twin that differs only in the offending line.  The run is
+cached by the hash of /repo's sources and of the witness crate."""
+import fcntl
+import hashlib
+import json
+import os
+import re
+import shutil
+import subprocess
+import sys
+
+from . import extract
+
+VERIF = extract.VERIF
+WDIR = os.path.join(VERIF, 'witness')
+
+
+def _load_table():
+    sys.path.insert(0, WDIR)
+    import importlib
+    gen = importlib.import_module('gen')
+    return gen
+
+
+def run_all():
+    gen = _load_table()
+    gen.main()
+    h = hashlib.sha256()
+    h.update(extract.source_hash(extra='witness').encode())
+    with open(os.path.join(WDIR, 'src', 'lib.rs'), 'rb') as f:
+        h.update(f.read())
+    key = h.hexdigest()[:24]
+    cache = os.path.join(extract.CACHE, 'witness-%s.json' % key)
+    if os.path.exists(cache):
+        with open(cache) as f:
+            return json.load(f), gen.W, True
+    os.makedirs(extract.CACHE, exist_ok=True)
+    with open(os.path.join(extract.CACHE, 'witness.lock'), 'w') as lk:
+        fcntl.flock(lk, fcntl.LOCK_EX)
+        if os.path.exists(cache):
+            with open(cache) as f:
+                return json.load(f), gen.W, True
+        shutil.copyfile(os.path.join(extract.REPO, 'Cargo.lock'), os.path.join(WDIR, 'Cargo.lock'))
+        env = dict(os.environ)
+        env['CARGO_TARGET_DIR'] = os.path.join(extract.CACHE, 'witness-target')
+        env['CARGO_NET_OFFLINE'] = 'true'
+        r = subprocess.run(['cargo', '+nightly', 'test', '--doc', '--offline'], cwd=WDIR, env=env,
+                           stdout=subprocess.PIPE, stderr=subprocess.STDOUT, text=True)
+        res = {}
+        for m in re.finditer(r'^test src/lib\.rs - (w_\w+) \(line \d+\)( - compile fail| - compile)? \.\.\. (\w+)', r.stdout, re.M):
+            res[m.group(1)] = m.group(3)
+        out = {'results': res, 'exit': r.returncode, 'tail': r.stdout[-3000:] if not res else ''}
+        with open(cache, 'w') as f:
+            json.dump(out, f)
+        for old in os.listdir(extract.CACHE):
+            if old.startswith('witness-') and old.endswith('.json') and old != os.path.basename(cache):
+                try:
+                    if os.path.getmtime(os.path.join(extract.CACHE, old)) < os.path.getmtime(cache) - 86400:
+                        os.remove(os.path.join(extract.CACHE, old))
+                except OSError:
+                    pass
+        return out, gen.W, False
 
 
 def run(ctx, prop):
-    ctx.notes.append('witness crate not built yet')
+    out, table, cached = run_all()
+    res = out['results']
+    if not res:
+        ctx.bad('R9', 'witness harness', 'witness crate', 'the witness crate did not build/run: ' + out.get('tail', '')[-600:], key='R9/harness/' + prop)
+        return
+    n = 0
+    for name, props, code, what, setup, fail, twin in table:
+        if prop not in props:
+            continue
+        n += 1
+        key = 'R9/witness/%s' % name
+        f = res.get('w_%s_fail' % name)
+        t = res.get('w_%s_twin' % name)
+        if f == 'ok' and t == 'ok':
+            ctx.ok('R9', what, 'w_' + name, 'does not compile with %s; twin (only the offending line differs) compiles' % code, key=key)
+        elif t != 'ok':
+            ctx.unresolved('R9', what, 'w_' + name, 'the compiling twin no longer builds (%s): witness is not meaningful on this tree' % t, key=key)
+        else:
+            ctx.bad('R9', what, 'w_' + name, 'the witness now COMPILES (or fails with a different error than %s): the guard it witnesses is gone. Offending line: %s' % (code, fail[:160]), key=key)
+    ctx.extra['witnesses_run'] = n
+    ctx.extra['witness_cache_hit'] = cached
